@@ -30,6 +30,18 @@ def D(x):
     return Decimal(x)
 
 
+def orc_free_si(q, pa, fs, size):
+    """pascal value of a quantity in Pa, uPa or the user's unit (no library conversion involved)"""
+    u = q.unit
+    pv = oracle.prefix_value(u.prefix)
+    f = {k: v for k, v in u.factors.items()}
+    if f == {pa: 1}:
+        return D(q.magnitude) * D(pv)
+    if f == {fs: 1}:
+        return D(q.magnitude) * D(pv) * D(size)
+    return None
+
+
 def lib():
     """the library computes under the default decimal context; the harness's own arithmetic around it runs in a
     60-digit one (set for the duration of run())"""
@@ -240,6 +252,41 @@ def _run(ctx):
                 pass
         if i % 500 == 7:
             ctx.sample({"family": fname, "reference": rname, "quantity": str(q), "level": lv.magnitude, "definition": core.sf(want)})
+    # ---- a unit whose size is corrected at run time (a calibrated "full scale"): the level of the same reading
+    # follows the new size at once, through Quantity.level, LogarithmicUnit.level and the round trip
+    with lib():
+        pa, upa = U["pascal"], P["micro"] * U["pascal"]
+    for k in range(12 if ctx.tier == "quick" else 400):
+        fname = rng.choice(fam_names)
+        logarithm, base, prefix = families[fname]
+        nm = f"zqc18fs{ctx.shard}x{k}"
+        with lib():
+            fs = m.Unit.define(m.Pressure, nm, nm)
+            lu = logarithm[20 * upa]
+        sizes = rng.sample([2, 4, 0.5, 10, 1.25], 3)
+        reading = rng.choice([0.5, 1, 2, Decimal("0.25")])
+        for size in sizes:
+            with lib():
+                fs.equals(size * pa)
+            q = Q(reading, fs)
+            want = level_formula(D(reading) * D(size) / (Decimal(20) * Decimal("1e-6")), base, prefix, 2)
+            for how in ("Quantity.level", "LogarithmicUnit.level", "Quantity.level again"):
+                ctx.count("evaluations")
+                ctx.count("levels_after_a_recalibration")
+                ctx.distinct(("recalibrated", fname, how, size), True)
+                try:
+                    with lib():
+                        lv = lu.level(q) if how == "LogarithmicUnit.level" else q.level(lu)
+                        back = lv.quantify()
+                except Exception as e:
+                    ctx.violation(f"C18:level:raised-{type(e).__name__}", f"({q}).level({fname}[20 uPa]) after {nm} was set to {size} Pa: {e}", {"family": fname})
+                    continue
+                if abs(D(lv.magnitude) - want) > abs(want) * Decimal("1e-9") + Decimal("1e-6"):
+                    ctx.violation("C18:level:wrong-magnitude", f"{how}: ({q}).level({fname}[20 uPa]) = {lv.magnitude!r} after {nm} was set to {size} Pa (it had other sizes before); "
+                                  f"the definition gives {core.sf(want)!r}", {"family": fname, "size": size, "how": how})
+                bsi = orc_free_si(back, pa, fs, size)
+                if bsi is not None and abs(bsi - D(reading) * D(size)) > abs(D(reading) * D(size)) * Decimal("1e-6"):
+                    ctx.violation("C18:round-trip:quantity-level-quantity", f"{q} -> {lv.magnitude!r} -> {back!r} after {nm} was set to {size} Pa", {"family": fname, "size": size})
     ctx.require("postconditions/level", 200)
     ctx.require("postconditions/quantify", 200)
     ctx.require("monotone_chains", 50)
